@@ -58,6 +58,7 @@ type GenCfg struct {
 	ByTagPct   int  // percent of commands declared by tag (default 50)
 	CmdPct     int  // percent of commands (below max depth) having sub-commands (default 70)
 	NoBig      bool // never scale the bounds up
+	NoPtr      bool // no pointer-typed group/command fields, no options inside untagged struct fields
 }
 
 // uniformInt draws an (almost exactly) uniform integer in [0, n). rapid's own
@@ -437,6 +438,15 @@ func (g *declGen) group(ns *nameSets, nsPrefix string, depth int, allowEmpty boo
 		}
 	}
 	gr.OptsLast = pct(t, "optsLast", 30)
+	// a run of options declared inside an untagged (pointer to) struct field
+	if n := len(gr.Options); n > 0 && !cfg.NoPtr && pct(t, "inlineBlock", 12) {
+		from := rapid.IntRange(0, n-1).Draw(t, "inlineFrom")
+		to := rapid.IntRange(from+1, n).Draw(t, "inlineTo")
+		mark := rapid.SampledFrom([]string{"s", "p", "p", "P", "e"}).Draw(t, "inlineMark")
+		for i := from; i < to; i++ {
+			gr.Options[i].Inline = mark
+		}
+	}
 	if depth < cfg.NestGroups && pct(t, "nested", 35) {
 		nn := rapid.IntRange(1, 2).Draw(t, "nnested")
 		for i := 0; i < nn; i++ {
@@ -456,6 +466,9 @@ func (g *declGen) group(ns *nameSets, nsPrefix string, depth int, allowEmpty boo
 			sub.Namespace, sub.EnvNamespace = subNs, subEnvNs
 			if cfg.Hidden && pct(t, "hiddenGrp", 10) {
 				sub.Hidden = true
+			}
+			if !cfg.NoPtr && pct(t, "ptrGroup", 15) {
+				sub.Ptr = rapid.SampledFrom([]string{"nil", "nil", "set"}).Draw(t, "ptrGroupKind")
 			}
 			gr.Groups = append(gr.Groups, sub)
 		}
@@ -567,6 +580,9 @@ func (g *declGen) cmd(c *Cmd, depth int) {
 				btp = 50
 			}
 			sc.ByTag = c.ByTag || (!cfg.ProgOnly && pct(t, "byTag", btp))
+			if sc.ByTag && !cfg.NoPtr && pct(t, "ptrCmd", 20) {
+				sc.Ptr = rapid.SampledFrom([]string{"nil", "nil", "set"}).Draw(t, "ptrCmdKind")
+			}
 			if cfg.Desc && pct(t, "cmdDesc", 70) {
 				sc.Desc = fmt.Sprintf("command %s", sc.ID)
 			}
